@@ -165,7 +165,7 @@ static void do_gdspath(const J& g, W& w) {
     tm t = {};
     t.tm_year = 100;
     t.tm_mday = 1;
-    ErrorCode e1 = lib.write_gds(fn.c_str(), 0, &t);
+    ErrorCode e1 = lib.write_gds(fn.c_str(), (uint64_t)g["limit"].i(), &t);
     ErrorCode e2 = ErrorCode::NoError;
     Library back = read_gds(fn.c_str(), 0, 0, NULL, &e2);
     bool lat_ok = true, same = back.cell_array.count == 1;
